@@ -204,6 +204,8 @@ pub enum Tok {
     Raw(Vec<u8>),
     Recv,
     Close,
+    /// close the writing end with Sink::poll_close and keep it (no drop)
+    CloseSink,
 }
 
 impl Tok {
@@ -216,6 +218,7 @@ impl Tok {
             Tok::Raw(b) => format!("J:{}", hex(b)),
             Tok::Recv => "R".into(),
             Tok::Close => "Z".into(),
+            Tok::CloseSink => "K".into(),
         }
     }
     pub fn parse(t: &str) -> Option<Tok> {
@@ -237,6 +240,7 @@ impl Tok {
             ("J", 2) => Tok::Raw(unhex(p[1])?),
             ("R", 1) => Tok::Recv,
             ("Z", 1) => Tok::Close,
+            ("K", 1) => Tok::CloseSink,
             _ => return None,
         })
     }
@@ -501,6 +505,18 @@ pub struct Pipe {
     wr_pos: usize,
     rd: VecDeque<Option<Vec<u8>>>,
     pub polls: Rc<RefCell<(usize, usize)>>, // (pending results given, partial writes)
+    /// writing side: (poll_shutdown was called, the pipe was dropped) -- what the medium can signal
+    pub half: Rc<std::cell::Cell<(bool, bool)>>,
+    /// reading side: false = the peer has neither shut down nor dropped: after the chunks, Pending for ever
+    eof: bool,
+    pub stalled: Rc<std::cell::Cell<bool>>,
+}
+
+impl Drop for Pipe {
+    fn drop(&mut self) {
+        let (s, _) = self.half.get();
+        self.half.set((s, true));
+    }
 }
 
 impl Pipe {
@@ -511,15 +527,25 @@ impl Pipe {
             wr_pos: 0,
             rd: VecDeque::new(),
             polls: Rc::new(RefCell::new((0, 0))),
+            half: Rc::new(std::cell::Cell::new((false, false))),
+            eof: true,
+            stalled: Rc::new(std::cell::Cell::new(false)),
         }
     }
     pub fn reader(chunks: Vec<Option<Vec<u8>>>) -> Pipe {
+        Pipe::reader_with(chunks, true)
+    }
+    /// eof = false: the writing end was neither shut down nor dropped, so no end-of-stream arrives
+    pub fn reader_with(chunks: Vec<Option<Vec<u8>>>, eof: bool) -> Pipe {
         Pipe {
             out: Rc::new(RefCell::new(vec![])),
             wr: vec![usize::MAX],
             wr_pos: 0,
             rd: chunks.into(),
             polls: Rc::new(RefCell::new((0, 0))),
+            half: Rc::new(std::cell::Cell::new((false, false))),
+            eof,
+            stalled: Rc::new(std::cell::Cell::new(false)),
         }
     }
 }
@@ -544,6 +570,8 @@ impl AsyncWrite for Pipe {
         Poll::Ready(Ok(()))
     }
     fn poll_shutdown(self: Pin<&mut Self>, _: &mut Context<'_>) -> Poll<io::Result<()>> {
+        let (_, d) = self.half.get();
+        self.half.set((true, d));
         Poll::Ready(Ok(()))
     }
 }
@@ -551,7 +579,11 @@ impl AsyncWrite for Pipe {
 impl AsyncRead for Pipe {
     fn poll_read(mut self: Pin<&mut Self>, cx: &mut Context<'_>, buf: &mut ReadBuf<'_>) -> Poll<io::Result<()>> {
         match self.rd.pop_front() {
-            None => Poll::Ready(Ok(())), // EOF
+            None if self.eof => Poll::Ready(Ok(())), // EOF
+            None => {
+                self.stalled.set(true);
+                Poll::Pending
+            }
             Some(None) => {
                 self.polls.borrow_mut().0 += 1;
                 cx.waker().wake_by_ref();
@@ -721,11 +753,12 @@ macro_rules! framed_run {
         let pipe = Pipe::writer(&s.wr);
         let out = pipe.out.clone();
         let wpolls = pipe.polls.clone();
-        let mut a: tarpc::serde_transport::Transport<Pipe, $O, $W, tokio_serde::formats::$codec<$O, $W>> =
-            tarpc::serde_transport::new(
+        let half = pipe.half.clone();
+        let mut a_slot: Option<tarpc::serde_transport::Transport<Pipe, $O, $W, tokio_serde::formats::$codec<$O, $W>>> =
+            Some(tarpc::serde_transport::new(
                 Framed::new(pipe, LengthDelimitedCodec::new()),
                 tokio_serde::formats::$codec::<$O, $W>::default(),
-            );
+            ));
         let waker = futures::task::noop_waker();
         let mut cx = Context::from_waker(&waker);
         let mut closed = false;
@@ -742,10 +775,11 @@ macro_rules! framed_run {
                     if let Some(m) = <$W as WireMsg>::build(t, now) {
                         o.push(format!("OEvents {}", events_coq(&shape::record(&m))));
                         let before = out.borrow().len();
+                        let a = a_slot.as_mut().expect("writer alive until the script closes");
                         let r = catch_unwind(AssertUnwindSafe(|| {
                             let mut ok = false;
                             for _ in 0..100000 {
-                                match Pin::new(&mut a).poll_ready(&mut cx) {
+                                match Pin::new(&mut *a).poll_ready(&mut cx) {
                                     Poll::Ready(Ok(())) => {
                                         ok = true;
                                         break;
@@ -757,9 +791,9 @@ macro_rules! framed_run {
                             if !ok {
                                 return Err(());
                             }
-                            Pin::new(&mut a).start_send(m).map_err(|_| ())?;
+                            Pin::new(&mut *a).start_send(m).map_err(|_| ())?;
                             for _ in 0..10_000_000 {
-                                match Pin::new(&mut a).poll_flush(&mut cx) {
+                                match Pin::new(&mut *a).poll_flush(&mut cx) {
                                     Poll::Ready(Ok(())) => return Ok(()),
                                     Poll::Ready(Err(_)) => return Err(()),
                                     Poll::Pending => {}
@@ -793,8 +827,33 @@ macro_rules! framed_run {
                     tags.push("hand-written".into());
                 }
                 Tok::Recv => {}
-                Tok::Close => {
+                Tok::Close | Tok::CloseSink => {
                     closed = true;
+                    if *t == Tok::Close {
+                        // the writing end is dropped: the medium sees the pipe go away
+                        drop(a_slot.take());
+                        tags.push("writer-dropped".into());
+                    } else if let Some(a) = a_slot.as_mut() {
+                        // Sink::poll_close until it completes; the writer is kept alive
+                        let r = catch_unwind(AssertUnwindSafe(|| {
+                            for _ in 0..10_000_000 {
+                                match Pin::new(&mut *a).poll_close(&mut cx) {
+                                    Poll::Ready(_) => return,
+                                    Poll::Pending => {}
+                                }
+                            }
+                        }));
+                        if r.is_err() {
+                            tags.push("panic".into());
+                        }
+                        tags.push("sink-closed".into());
+                        if half.get().0 {
+                            o.push("OShut".into());
+                        }
+                    }
+                    // the reader sees end-of-stream only if the medium was told: shutdown or drop
+                    let (shut, dropped) = half.get();
+                    let eof_signalled = shut || dropped;
                     let mut stream = out.borrow().clone();
                     if s.cut > 0 {
                         if let Some(&last) = frames.last() {
@@ -825,7 +884,8 @@ macro_rules! framed_run {
                     if chunks_used.len() > 1 {
                         tags.push("fragmented-read".into());
                     }
-                    let rp = Pipe::reader(cs);
+                    let rp = Pipe::reader_with(cs, eof_signalled);
+                    let stalled = rp.stalled.clone();
                     let mut b: tarpc::serde_transport::Transport<Pipe, $W, $O, tokio_serde::formats::$codec<$W, $O>> =
                         tarpc::serde_transport::new(
                             Framed::new(rp, LengthDelimitedCodec::new()),
@@ -845,7 +905,15 @@ macro_rules! framed_run {
                                 tags.push("panic".into());
                                 break;
                             }
-                            Ok(Poll::Pending) => continue,
+                            Ok(Poll::Pending) => {
+                                if stalled.get() {
+                                    // everything was read and no end-of-stream will ever come
+                                    o.push("OPending".into());
+                                    tags.push("no-end-of-stream".into());
+                                    break;
+                                }
+                                continue;
+                            }
                             Ok(Poll::Ready(None)) => {
                                 o.push("OEnd".into());
                                 break;
@@ -920,6 +988,16 @@ macro_rules! chan_run {
                 Tok::Close => {
                     if a.take().is_some() {
                         tags.push("writer-dropped".into());
+                    }
+                }
+                Tok::CloseSink => {
+                    if let Some(a) = a.as_mut() {
+                        for _ in 0..100_000 {
+                            if Pin::new(&mut *a).poll_close(&mut cx).is_ready() {
+                                break;
+                            }
+                        }
+                        tags.push("sink-closed".into());
                     }
                 }
                 Tok::Raw(_) => {}
@@ -1001,6 +1079,7 @@ pub fn to_case(s: &Script) -> Case {
             }
             Tok::Recv => "Recv".into(),
             Tok::Close => "Close".into(),
+            Tok::CloseSink => "CloseSink".into(),
         });
     }
     // a token that could not be built (e.g. a deadline that overflows Instant) is a no-op on both
@@ -1124,7 +1203,8 @@ pub fn gen(rng: &mut Rng) -> Script {
     if framed && c2s && codec == Codec::Bincode && rng.chance(1, 5) {
         toks.insert(rng.below(toks.len() as u64 + 1) as usize, Tok::Raw(hand_bincode(rng)));
     }
-    toks.push(Tok::Close);
+    // the writing end is dropped (Z) or closed with poll_close and kept (K)
+    toks.push(if rng.chance(1, 2) { Tok::Close } else { Tok::CloseSink });
     if !framed {
         for _ in 0..rng.range(1, 4) {
             toks.push(Tok::Recv);
@@ -1204,7 +1284,10 @@ pub fn sweep(mut f: impl FnMut(Script)) {
     for codec in [Codec::Bincode, Codec::Json, Codec::Bounded(1), Codec::Unbounded] {
         let framed = matches!(codec, Codec::Bincode | Codec::Json);
         for k in 0..kinds().len() {
-            let mut toks = vec![Tok::Err { id: k as u64, kind: k, detail: Body::Bytes(b"d".to_vec()) }, Tok::Close];
+            let mut toks = vec![
+                Tok::Err { id: k as u64, kind: k, detail: Body::Bytes(b"d".to_vec()) },
+                if k % 2 == 0 { Tok::Close } else { Tok::CloseSink },
+            ];
             if !framed {
                 toks.push(Tok::Recv);
                 toks.push(Tok::Recv);
